@@ -15,6 +15,7 @@ import (
 
 	"github.com/cosi-project/runtime/pkg/resource"
 	"github.com/cosi-project/runtime/pkg/state"
+	"github.com/cosi-project/runtime/pkg/state/impl/inmem"
 
 	"verifharness/hk"
 	"verifharness/hres"
@@ -38,6 +39,54 @@ type CPlan struct {
 	Impl     string  `json:"impl"`
 	Keys     int     `json:"keys"`
 	Programs [][]COp `json:"programs"`
+	// Pre, when set, makes this a re-open run: the resources are committed through a first instance over a
+	// persistent backing store, then the programs run as the first accesses of a new instance over the same store,
+	// whose Load pauses LoadPauseUS microseconds per record (so that first accesses overlap the lazy load).
+	Pre         []PreRes `json:"pre,omitempty"`
+	LoadPauseUS int      `json:"load_pause_us,omitempty"`
+}
+
+// PreRes is a resource committed before the re-open.
+type PreRes struct {
+	Key   int  `json:"key"`
+	Owner int  `json:"owner"`
+	Edit  Edit `json:"edit"`
+	Bumps int  `json:"bumps"` // updates applied after the create
+}
+
+// GenReopenPlan draws a re-open plan: a persisted state and concurrent first accesses.
+func GenReopenPlan(t *rapid.T) CPlan {
+	p := GenCPlan("reopen")(t)
+	p.Keys = 3
+	p.LoadPauseUS = rapid.SampledFrom([]int{0, 50, 200, 1000}).Draw(t, "pause")
+
+	for _, k := range rapid.SliceOfNDistinct(rapid.IntRange(0, 2), 1, 3, rapid.ID[int]).Draw(t, "prekeys") {
+		p.Pre = append(p.Pre, PreRes{Key: k, Owner: rapid.IntRange(0, 1).Draw(t, "powner"), Edit: genEdit(t), Bumps: rapid.IntRange(0, 3).Draw(t, "bumps")})
+	}
+
+	return p
+}
+
+// slowBacking pauses during Load.
+type slowBacking struct {
+	*sim.MemBacking
+	pause time.Duration
+}
+
+func (b *slowBacking) Load(ctx context.Context, h inmem.LoadHandler) error {
+	return b.MemBacking.Load(ctx, func(typ resource.Type, r resource.Resource) error {
+		if b.pause > 0 {
+			time.Sleep(b.pause)
+		}
+
+		err := h(typ, r)
+
+		if b.pause > 0 {
+			time.Sleep(b.pause)
+		}
+
+		return err
+	})
 }
 
 func genCOp(t *rapid.T) COp {
@@ -200,29 +249,74 @@ func stepModel(sti, ini, outi interface{}) (bool, interface{}) {
 	return false, st
 }
 
-var linModel = porcupine.Model{
-	Init: func() interface{} { return st3{} },
-	Step: stepModel,
-	DescribeOperation: func(in, out interface{}) string {
-		return fmt.Sprintf("%+v -> %+v", in, out)
-	},
+func linModel(init st3) porcupine.Model {
+	return porcupine.Model{
+		Init: func() interface{} { return init },
+		Step: stepModel,
+		DescribeOperation: func(in, out interface{}) string {
+			return fmt.Sprintf("%+v -> %+v", in, out)
+		},
+	}
 }
 
 var s4IDs = []string{"a", "b", "c"}
 
 // RunS4 executes the programs on real threads and checks the history.
 func RunS4(p CPlan) (v hk.Verdict) {
-	impl, err := sim.Build(p.Impl)
-	if err != nil {
-		v.Failf("harness: cannot build %s: %v", p.Impl, err)
+	var (
+		st   state.CoreState
+		init st3
+	)
 
-		return v
-	}
-
-	defer impl.Close()
-
-	st := impl.State
 	ctx := context.Background()
+
+	if p.Pre != nil {
+		backing := sim.NewMemBacking()
+		first := inmem.NewStateWithOptions(inmem.WithBackingStore(backing))("n1")
+
+		for _, pr := range p.Pre {
+			r := hres.New("n1", "TA", s4IDs[pr.Key], fmt.Sprintf("pre%d", pr.Key))
+			applyEdit(r, pr.Edit)
+
+			if err := first.Create(ctx, r, state.WithCreateOwner(owners[pr.Owner])); err != nil {
+				v.Failf("harness: pre-create: %v", err)
+
+				return v
+			}
+
+			for b := 0; b < pr.Bumps; b++ {
+				r.SetValue(fmt.Sprintf("pre%d.%d", pr.Key, b))
+
+				if err := first.Update(ctx, r, state.WithUpdateOwner(owners[pr.Owner]), state.WithExpectedPhaseAny()); err != nil {
+					v.Failf("harness: pre-update: %v", err)
+
+					return v
+				}
+			}
+
+			got, err := first.Get(ctx, r.Metadata())
+			if err != nil {
+				v.Failf("harness: pre-get: %v", err)
+
+				return v
+			}
+
+			init.R[pr.Key] = slotOf(model.FromResource(got))
+		}
+
+		st = inmem.NewStateWithOptions(inmem.WithBackingStore(&slowBacking{MemBacking: backing, pause: time.Duration(p.LoadPauseUS) * time.Microsecond}))("n1")
+	} else {
+		impl, err := sim.Build(p.Impl)
+		if err != nil {
+			v.Failf("harness: cannot build %s: %v", p.Impl, err)
+
+			return v
+		}
+
+		defer impl.Close()
+
+		st = impl.State
+	}
 
 	var (
 		clock atomic.Int64
@@ -390,7 +484,7 @@ func RunS4(p CPlan) (v hk.Verdict) {
 		v.Label("overlapping-writes>=10")
 	}
 
-	res := porcupine.CheckOperationsTimeout(linModel, hist, 5*time.Second)
+	res := porcupine.CheckOperationsTimeout(linModel(init), hist, 5*time.Second)
 
 	switch res {
 	case porcupine.Illegal:
